@@ -19,7 +19,8 @@ def sh(cmd, **kw):
 
 def worker(w, q, tier, lock):
     vx, mx = f"/tmp/vx_{w}", f"/tmp/mx_{w}"
-    sh(f"git -C /repo worktree remove --force {mx}; rm -rf {mx}; git -C /repo worktree prune; git -C /repo worktree add -q --detach {mx} HEAD")
+    with lock:   # git worktree add is not safe to run concurrently
+        sh(f"git -C /repo worktree remove --force {mx}; rm -rf {mx}; git -C /repo worktree prune; git -C /repo worktree add -q --detach {mx} HEAD")
     os.makedirs(vx, exist_ok=True)
     sh(f"rsync -a --delete --exclude .git --exclude replays --exclude '.work/C*' --exclude .work/repo --exclude .work/build.lock {VERIF}/ {vx}/")
     while True:
@@ -68,7 +69,8 @@ def worker(w, q, tier, lock):
         json.dump(meta, open(mp, "w"), indent=1)
         with lock:
             print(id_, {c: (r.get("rc"), "input" if r["violation_lines"] > r["no_failing_input"] else ("no-input" if r["violation_lines"] else "-")) for c, r in res.items()}, flush=True)
-    sh(f"git -C /repo worktree remove --force {mx}; rm -rf {mx} {vx}; git -C /repo worktree prune")
+    with lock:
+        sh(f"git -C /repo worktree remove --force {mx}; rm -rf {mx} {vx}; git -C /repo worktree prune")
 
 
 def main():
